@@ -390,11 +390,18 @@ func (rp *ResourcePool) scaleOutResources() (resourceWrapper, bool) {
 
 // 扩容并获取连接, 外层加锁了，所以这边不加锁
 func (rp *ResourcePool) AddCapacityResource() (resourceWrapper, bool) {
-	capacity := int(rp.capacity.Get())
-	if capacity < 0 || capacity >= int(rp.maxCapacity.Get()) {
-		return resourceWrapper{}, false
+	// capacity may be changed concurrently by ScaleCapacity (SetCapacity, scale in, Close),
+	// which does not hold rp.lock: add one only if it is still the value that was checked,
+	// and never re-open a closed pool (capacity 0).
+	for {
+		capacity := rp.capacity.Get()
+		if capacity <= 0 || capacity >= rp.maxCapacity.Get() {
+			return resourceWrapper{}, false
+		}
+		if rp.capacity.CompareAndSwap(capacity, capacity+1) {
+			break
+		}
 	}
-	rp.capacity.Add(1)
 	rp.available.Add(1)
 	return resourceWrapper{}, true
 }
